@@ -23,7 +23,7 @@ GARBAGE = ('nan', 'huge', 'stale', 'inf', 'zero')
 LENGTHS = [1, 2, 3, 4, 5, 8, 9]
 
 TIERS = {
-    'C18': {'quick': {'runs': 14000, 'budget_s': 100, 'chunk': 50},
+    'C18': {'quick': {'runs': 24000, 'budget_s': 100, 'chunk': 50},
             'thorough': {'runs': 600000, 'budget_s': 1800, 'chunk': 200}},
 }
 
